@@ -97,9 +97,13 @@ def _ctl_good(z):
 '''
 
 
-def _single_chunk(v, axis):
+def _single_chunk(v, axis, fn=None):
     """Does the chunks= value keep `axis` (None: every axis) in one chunk?  True / False / None (cannot tell)."""
     def one(e):
+        if isinstance(e, ast.Name) and fn is not None:
+            defs = [a_.value for a_ in ast.walk(fn) if isinstance(a_, ast.Assign) and len(a_.targets) == 1 and isinstance(a_.targets[0], ast.Name) and a_.targets[0].id == e.id]
+            if len(defs) == 1 and not isinstance(defs[0], ast.Name):
+                return one(defs[0])          # N = len(z): the whole axis
         if isinstance(e, ast.UnaryOp) and isinstance(e.op, ast.USub) and isinstance(e.operand, ast.Constant) and e.operand.value == 1:
             return True
         if isinstance(e, ast.Constant):
@@ -152,14 +156,14 @@ def _chunk_findings(fn_node):
         if isinstance(par, ast.Attribute) and par.attr == "rechunk":
             gp = parents.get(id(par))
             if isinstance(gp, ast.Call) and gp.args:
-                r = _single_chunk(gp.args[0], None if name in DASK_CREATORS_1D else axis)
+                r = _single_chunk(gp.args[0], None if name in DASK_CREATORS_1D else axis, fn_node)
                 out.append((c, r, "rechunked straight away"))
                 continue
         ch = [k.value for k in c.keywords if k.arg == "chunks"]
         if not ch:
             out.append((c, False, "no chunks= given: Dask picks the chunk size, so a long time axis is split"))
             continue
-        r = _single_chunk(ch[0], 0 if name in DASK_CREATORS_1D else axis)
+        r = _single_chunk(ch[0], 0 if name in DASK_CREATORS_1D else axis, fn_node)
         out.append((c, r, f"chunks={norm(ch[0])}"))
     return out, len(ffts)
 
